@@ -9,6 +9,30 @@ BASE_ASSUME = [
 NOT_APPLICABLE = {}
 
 PROPS = {
+    "C01": dict(
+        engine="fuzz", level="exploration",
+        technique="coverage-guided structured fuzzing (libFuzzer): round-trip oracle over generated inputs x by-construction-valid encoder configurations",
+        level_text="Generated-input search over (input recipe, encoder entry point, filter chain/options/preset, check, slicing): each case must encode and decode back through the matching liblzma decoder to exactly the input; MicroLZMA to exactly the reported prefix within its limit. Sampled; the guarded match-finder bias hook makes position-counter normalisation reachable without 4 GiB of input.",
+        level_note="Oracle decoder is liblzma itself (a symmetric encoder/decoder deviation is C02/C03's job, which use the independent ref/ decoder). Configurations are constructed from the ranges documented in lzma12.h/filter.h/container.h.",
+        targets=[dict(name="t_c01", quick_runs=12000, quick_workers=8, thorough_runs=800000, max_len=128, min_nontrivial_quick=4000, min_nontrivial_thorough=100000)],
+        rule=("case = input recipe (random/constant/short and long period around the dictionary size/text/zero runs/copy-with-edits/mixed; 0..3 MiB on a log scale) x entry point "
+              "(easy, stream, stream_mt, alone, raw, block, microlzma and the single-call easy/stream/block/raw buffer encoders) x preset 0-9[e] or explicit chain (0-3 of delta/8 BCJ + LZMA2|LZMA1|LZMA1EXT; "
+              "dict 4 KiB..16 MiB, all lc/lp/pb with lc+lp<=4, mode, nice_len 2..273, all 5 match finders, depth, preset dictionary) x check x encoder and decoder slicing x normalisation hook. "
+              "Non-trivial: input length >= 1 and the round trip executed; distinct = hash(config, recipe, schedules)."),
+        assumptions=BASE_ASSUME + ["lzma_verif_mf_offset_bias hook only changes *when* normalize() runs, not what it computes (DESIGN.md 2.3)"],
+    ),
+    "C02": dict(
+        engine="fuzz", level="exploration",
+        technique="structured fuzzing (libFuzzer) with a differential oracle: an independent spec-derived parser/decoder (harness/ref) must accept every encoder output, recover the input and find every stored field truthful; bound() clause by construction",
+        level_text="Generated-input search over encoder configurations and input lengths concentrated at LZMA2 chunk / Block boundaries; every produced stream is parsed field by field by ref/xzparse.h (no liblzma code) and decoded by ref/lzma_dec.h; single-call encoders get exactly bound() bytes of output space. Sampled.",
+        level_note="Trusted base: harness/ref (written from doc/xz-file-format.txt, doc/lzma-file-format.txt, the LZMA specification; validated on all tests/files by harness/reftest.cc: 77 files, 0 disagreements with liblzma). The de-facto LZMA2 chunk grammar (7-Zip/XZ Embedded) is trusted. BCJ chains are checked through ref/bcj.h.",
+        targets=[dict(name="t_c02", quick_runs=4000, quick_workers=8, thorough_runs=300000, max_len=128, min_nontrivial_quick=1500, min_nontrivial_thorough=50000)],
+        rule=("case = encoder configuration (as C01, dictionaries <= 1 MiB) x input recipe with length from {log scale 0..1.5 MiB, k*65536+{-2..2}, 2^21+{-2..2}, multiples of small block sizes} x encoder slicing. "
+              "Oracle: .xz: reference parser accepts, exactly one Stream, size % 4 == 0, Stream Flags == configured check, Block Header/size fields/padding/Check/Index/Backward Size/footer verified by recomputation, no empty Block, no match distance beyond the declared LZMA2 dictionary, threaded encoder writes size fields; "
+              ".lzma: 13-byte header with configured lc/lp/pb, unknown-size field + end marker, plausible dictionary field >= every distance; raw LZMA1/LZMA1EXT/LZMA2 (with preset dictionary) and MicroLZMA decode under the reference to the input (prefix for MicroLZMA); Block encoder: header/struct sizes/padding/Check truthful; "
+              "single-call easy/stream/block encoders never return BUF_ERROR with out_size == bound(in_size). Non-trivial: input >= 1 byte and the reference ran; distinct = hash(config, recipe, schedule)."),
+        assumptions=BASE_ASSUME + ["harness/ref is correct (see level_note); a reference that lacks a filter makes the case inconclusive (counted), never a verdict"],
+    ),
     "C06": dict(
         engine="fuzz", level="exploration",
         technique="coverage-guided structured fuzzing (libFuzzer) with a metamorphic oracle: any slicing == one shot; encoder determinism differential",
@@ -21,5 +45,99 @@ PROPS = {
               "informational codes equal the one-shot run (bytes exempt for rejected input behind BCJ). Non-trivial: schedule really splits input into >=2 non-empty pieces or "
               "output into >=2 windows and the coder consumed more than its header; distinct = hash(input/config, schedule)."),
         assumptions=BASE_ASSUME + ["thread schedules of the threaded encoder are the OS's in this target (controlled schedules: C08 target)"],
+    ),
+    "C13": dict(
+        engine="fuzz+py", level="exploration",
+        technique="model-based stateful fuzzing (libFuzzer, structure-aware case decoder) of lzma_index_* histories against an independent list-of-records model; by-construction multi-Stream .xz files x chunking x seek behaviour for lzma_file_info_decoder with Block decoding at the reported offsets; Hypothesis differential of `xz --list --robot -vv` against a Python container parser",
+        level_text="Generated-input search: tens of thousands of API histories (up to ~60 ops on 4 live indexes, sizes over the whole VLI range incl. limit-crossing values, >512 Records per Stream) and constructed files (1-6 Streams, 0-1300 Blocks, padding 0-20 KB, 12 malformed kinds) per run, each compared field by field with the model; sampled, not exhaustive. Right level because the quantifier (all finite op sequences x all files x all read patterns) is unbounded while the oracle (a small model with 128-bit arithmetic) is exact and cheap.",
+        level_note="Trusted: ref/index_model.h (written from doc/xz-file-format.txt and api/lzma/index.h, no liblzma code); the file-info loop in t_c13.cc follows the documented LZMA_SEEK_NEEDED protocol; lzma_index_memusage() values are compared only with liblzma's own function; 'no seek with the whole file' is asserted only for the call that received the whole file.",
+        targets=[dict(name="t_c13", quick_runs=120000, quick_workers=8, thorough_runs=3000000, max_len=300, min_nontrivial_quick=10000, min_nontrivial_thorough=200000)],
+        suites=[dict(module="c13_list", min_nontrivial_quick=150, min_nontrivial_thorough=1500)],
+        rule=("Mode A: case = history of init/append/append_many/stream_flags/stream_padding/cat/dup/encode/decode/decode_mutated/iter_init/iter_next(4 modes)/iter_rewind/iter_locate/iter_copy/end on <=4 indexes; after every op all getters == model, "
+              "failed ops return the documented code and change nothing; full iteration in 4 modes + locate probes after cat/dup/decode/at the end; encoded bytes == spec encoding; decode accepts exactly what the spec parser accepts, memlimit semantics exact. "
+              "Non-trivial: >=3 ops and >=1 cat/dup/encode-decode/locate on an index with >=2 records; distinct = hash(op list). "
+              "Mode B: case = file layout (streams x blocks x checks x padding, real or dummy payload) x malformed kind x chunk size x short reads x FINISH use x memlimit; valid => STREAM_END, index == concatenated model, seek_pos <= size, Blocks decode to the plaintext range; "
+              "malformed => error. Non-trivial: >=2 Streams or >=2 Blocks; distinct = hash(layout, malformation, chunking). "
+              "py: scenario = 1-3 files x 1-4 Streams (len, check, block size, threads, chain, padding) x verbosity; all robot-mode columns == model; non-trivial: >=2 Streams or >=2 Blocks."),
+        assumptions=BASE_ASSUME + ["the 2^34-byte Index limit and 2^32 Streams limit are modelled but not reachable in a test",
+            "allocation refusals of the 64 MiB capped allocator on garbage Record counts are counted as environment",
+            "xz --list memory-usage columns are only checked for internal consistency (summary == max of block lines)"],
+    ),
+    "C14": dict(
+        engine="fuzz", level="exploration",
+        technique="differential testing against independent reference implementations (bit-at-a-time CRC32/CRC64 from the spec polynomials, SHA-256 from FIPS 180-4): exhaustive small grid + structured fuzzing (libFuzzer), one binary per liblzma build variant",
+        level_text="Exhaustive over length 0..640 x alignment 0..63 for lzma_crc32/lzma_crc64 (every size class and tail of the CLMUL and slice-by-8 code, both with initial value 0 and one arbitrary initial value) on every run and every variant; beyond that generated-input search over content, lengths up to 1 MiB, initial values, split points and the Check-field paths of the Block/Stream coders. Sampled, not exhaustive, outside the grid.",
+        level_note="Trusted: ref/crc.h and ref/sha256.h (no liblzma code; vectors verified against hashlib). The integrity-check interface is only reachable through the public Block/Stream coders (lzma_check_* is not exported). Build variants make the table-driven (gen), runtime-dispatched CLMUL (asan), unconditional CLMUL (clmul) and size-optimised (small) code paths execute on this x86-64 machine; they agree bit for bit transitively through the same oracle.",
+        targets=[dict(name="t_c14", variant=v, quick_runs=30000, quick_workers=2, thorough_runs=1200000, thorough_workers=4, max_len=128, min_nontrivial_quick=40000, min_nontrivial_thorough=400000) for v in ("asan", "gen", "small", "clmul")],
+        rule=("every process first runs the grid (len 0..640 x align 0..63, buffer ends at the end of its allocation so ASan sees over-reads): lzma_crc32/lzma_crc64 == bitwise definition for init 0 and an arbitrary init. "
+              "Generated cases: (direct) content kind {random, 0x00, 0xFF, single set bit, counting} x length <= 1 MiB (mostly <= 700) x alignment 0..63 x initial value (0 or any) x 1..5 cut points: one-piece value and value computed in pieces both equal the definition; "
+              "(check) lzma_block_buffer_encode / lzma_block_uncomp_encode / lzma_stream_buffer_encode / multi-call lzma_stream_encoder fed in generated slices, with CRC32, CRC64, SHA-256: the Check field (and lzma_block.raw_check) equals the reference check of the input; the matching decoder accepts it and returns the input; one flipped bit of the Check field => LZMA_DATA_ERROR. "
+              "Non-trivial: length >= 1; distinct = hash(variant, length, alignment, content, init/cuts or check/path/schedules). Each process contributes 40960 non-trivial grid evaluations (same keys in every process)."),
+        assumptions=BASE_ASSUME + ["ARM64 CRC32 instructions, LoongArch, 32-bit x86 assembly and big-endian table code cannot execute on this machine and are not covered",
+                                   "SHA-256 message lengths >= 2^29 bytes (bit-length carry) are out of reach",
+                                   "inputs > 8 KiB are compared with a byte-table CRC derived from the same bitwise definition"],
+        exhaustive_note="exhaustive: lzma_crc32 and lzma_crc64 over length 0..640 x start alignment 0..63 x {init 0, one arbitrary init} with PRNG content, per variant, on every run",
+    ),
+    "C15": dict(
+        engine="fuzz", level="exploration",
+        technique="differential testing against independent reference BCJ/delta converters (ref/bcj.h) + round-trip + metamorphic slicing oracle, structured fuzzing (libFuzzer) with instruction-dense generators; released liblzma 5.4.1 as a second opinion",
+        level_text="Generated-input search: tens of thousands of (filter, start offset / distance, data, direction, two slicing schedules) cases per run; the transform liblzma applies is observed through the public API ([F,LZMA2] vs [LZMA2] raw chains and the one-shot lzma_bcj_* functions) and compared byte for byte with the reference algorithm. Sampled, not exhaustive: the quantifier ranges over all byte strings.",
+        level_note="Trusted: ref/bcj.h, written from the format digest / LZMA SDK reference algorithms (x86 in the newer prevMask formulation) and, for ARM64/RISC-V, from the prose in simple/arm64.c and simple/riscv.c - structurally different from liblzma; cross-checked on the unchanged tree, on real ARM64 code and delta-coded data from tests/files, and against liblzma 5.4.1 (all filters but RISC-V, which 5.4.1 lacks). The LZMA2 layer used to reach the filters is assumed to round-trip (C01/C03).",
+        targets=[dict(name="t_c15", quick_runs=120000, quick_workers=8, thorough_runs=4000000, max_len=160, min_nontrivial_quick=20000, min_nontrivial_thorough=500000)],
+        rule=("case = filter {x86, powerpc, ia64, arm, armthumb, arm64, sparc, riscv, delta} x start_offset (0 / NULL options, small, just below 2^32 so that the position wraps inside the buffer, random; multiples of the alignment) or delta distance 1..256 "
+              "x data (per-architecture instruction-dense recipes incl. x86 E8/E9 runs that drive the previous-candidate mask, ARM64 ADRP on both sides of the +/-512 MiB gate, RISC-V JAL / AUIPC pairs / special packed forms, IA-64 bundles with every template; or generic recipes), length 0..64 KiB (mostly 16..600) "
+              "x first direction x slicing schedules for both filtering coders. Oracle: (1) F(x) == reference for the first direction and again for the opposite direction on the result, (2) the opposite direction returns x, (3) equal lengths, "
+              "(4) any slicing == whole-buffer reference; lzma_bcj_{x86,arm64,riscv}_{encode,decode} give the reference bytes and processed count (tail <= 4/3/7); misaligned start_offset and delta distance 0 / > 256 => LZMA_OPTIONS_ERROR from both initialisers; "
+              "(5) on ~13 % of the cases liblzma 5.4.1 (dlopen) gives the same bytes. Once per process: good-1-arm64-lzma2-{1,2}.xz, good-1-delta-lzma2.tiff.xz, good-1-3delta-lzma2.xz decoded by liblzma == LZMA2 layer alone + reference filters. "
+              "Non-trivial: the reference changed >= 1 byte; distinct = hash(filter, offset/distance, data, direction)."),
+        assumptions=BASE_ASSUME + ["the 5.4.1 comparison needs /usr/lib/x86_64-linux-gnu/liblzma.so.5 (VERIF_SYSLZMA overrides; absence is counted, not an error) and cannot cover RISC-V",
+                                   "no RISC-V golden file exists in tests/files; RISC-V is pinned by the reference written from the specification comment only"],
+    ),
+    "C17": dict(
+        engine="py", level="fault_enumeration",
+        technique="LD_PRELOAD syscall fault injection (shim/faultio.so) into the dynamically linked cli xz; per Hypothesis scenario one fault-free traced run gives the K fault points, then every k in 1..K (a seeded sample of the bulk read/write calls for K > 64 on the quick tier) is run for each drawn fault kind (errno EIO/ENOSPC, EINTR, EAGAIN, short count, SIGINT/TERM/HUP/PIPE before the call, signal+errno, SIGKILL before / after the call); the end state of the directory is judged after the process is gone, validity of targets by the direct library decoder libdec, plus a syscall-order invariant on every trace",
+        level_text="Enumeration of injected faults, signals and process deaths at every intercepted system call of generated xz invocations; per scenario the enumeration over k is complete on the thorough tier and for traces up to 64 calls on the quick tier; the scenarios themselves (options, sizes 0..200 KiB, contents, damaged inputs) are sampled by Hypothesis.",
+        level_note="Trusted: the interposer only sees calls xz makes through the PLT; durability itself is unobservable, the order and results of fsync/close/unlink are checked instead; libdec (liblzma of the same tree) judges target validity.",
+        shims=["faultio"], helpers=[dict(name="libdec")],
+        suites=[dict(module="c17", min_nontrivial_quick=400, min_nontrivial_thorough=8000)],
+        rule="scenario = mode (compress/decompress, xz/lzma, -c to pipe/file/O_APPEND, -k, -f, pre-existing target, 1-2 files, --files, --no-sync, -T1/-T4, damaged input) x content 0..200 KiB x fault kinds; per scenario every fault point k of the fault-free trace is injected (sampled for long traces on quick). Non-trivial and distinct: (scenario hash, k, fault kind) where the fault is delivered while a target file exists and its source has not been unlinked yet (for -c: output has begun and the source is still open)",
+        assumptions=[
+            "only system calls xz makes through the PLT are fault points (open, close, read, write, lseek, fsync, unlink, fchmod, fchown, futimens, fcntl F_SETFL, poll, posix_fadvise); libc-internal stdio and stat/lstat/fstat are not injected",
+            "one fault per run; a signal is sent process-directed from inside the interposed call, so it is handled at call boundaries of the main thread",
+            "durability itself is not observable: the order and results of fsync(target), fsync(directory), close(target) and unlink(source) are checked instead",
+            "failure of close() on the read-only source or on the directory descriptor, of fchown/fchmod/futimens/posix_fadvise/fcntl, EINTR/EAGAIN and short counts may end as success or as clean failure; only inconsistent end states are violations",
+            "a signal may legitimately be followed by completion of the file if at most 4 further data reads/writes happen",
+            "watchdog timeouts (30 s per xz run) are counted as inconclusive, never as a verdict",
+            "regular files in one directory on the build file system, run as the invoking user"],
+        exhaustive_note="exhaustive=true means: in every generated scenario of the run, every applicable fault point k in 1..K of the fault-free trace was injected for each of the scenario's fault kinds (short counts only on read/write, EPIPE only on write)",
+    ),
+    "C18": dict(
+        engine="py", level="exploration",
+        technique="Hypothesis differential test: xz -dc/-d/-t, xzdec, lzmadec on generated valid/corrupt/truncated/concatenated .xz/.lzma/.lz files with 8 KiB-aligned zero runs, across pipe / new file / redirect at offset 0, ==size, !=size / O_APPEND / --no-sparse sinks, -T values and options, against a direct liblzma decode (libdec); plus xz option-grammar round trips with Block-size model",
+        level_text="Random exploration of inputs x tools x sinks x options; tool output, sink content and exact size, file creation and exit status compared with the library decode configured as the tool documents. Sampled.",
+        level_note="Oracle is the one-shot library decode of the same bytes (liblzma itself is judged by C03/C16); bytes before an error are not compared when a BCJ filter is in the chain (the property C06 leaves them unspecified) nor status for headerless files in xz's documented stricter .lzma sniffing zone.",
+        helpers=[dict(name="libdec")],
+        suites=[dict(module="c18", min_nontrivial_quick=300, min_nontrivial_thorough=4000)],
+        rule="scenario = input (1-3 Stream .xz from the tree's xz with --block-size/-C/-T, .lzma, tests/files incl. .lz, pass-through data; plaintext segments of zeros/data sized 8192*m+delta; corruption by region) x 1-3 runs (tool, sink kind, -T, options); or an option-grammar round trip. A run is non-trivial if the expected output contains at least one full all-zero 8 KiB buffer or the library does not report clean success on the input; distinct = hash(inputs recipe, run)",
+        assumptions=[
+            "the cli build has the CMake default feature set and libdec links liblzma of the same working tree",
+            "tool -> library configuration as documented in xz.1/xzdec.1 (CONCATENATED unless --single-stream, TELL_UNSUPPORTED_CHECK unless --ignore-check, trailing data allowed only for .lz and --single-stream, exit 2 only for the unverifiable-check warning without -Q)",
+            "scratch directory is on a filesystem where content and st_size are exact; holes are only counted (st_blocks), never required",
+            "timeouts are inconclusive, never a verdict"],
+    ),
+    "C20": dict(
+        engine="py", level="exploration",
+        technique="Hypothesis: random file sets (plain/.xz/.lzma/.lz/.txz/.tlz/.gz/.bz2, intact, truncated, missing) with hostile names, patterns and option sets; xzgrep/xzegrep/xzfgrep/xzdiff/xzcmp from the cli build run in a scratch directory and are compared with system grep/diff/cmp run on the decompressed contents; injection canary (directory listing + arithmetic marker); label by grep --label and by the sed fallback (GREP=wrapper rejecting --label)",
+        level_text="Exploration: 1600 (quick) / 16000 (thorough) random scenarios per run, each compared with GNU grep/diff/cmp on the decompressed contents; no exhaustiveness claim.",
+        level_note="Oracle = GNU grep/diff/cmp of the sandbox run per file on the original contents; what a missing/undecodable operand itself prints is left free.",
+        suites=[dict(module="c20", min_nontrivial_quick=600, min_nontrivial_thorough=6000)],
+        rule="scenario = program x 0..4 files (format, state ok/truncated/missing, hostile name stems) x patterns/options/label method; non-trivial = a file name or pattern contains a shell/sed metacharacter, newline, control/8-bit byte or leading dash, or >= 2 operands with different outcomes (match / no match / error); distinct = hash of the scenario",
+        assumptions=[
+            "system GNU grep/diff/cmp (LC_ALL=C) define the expected behaviour; xz on PATH is the cli build's xz (checked at start-up)",
+            "xzgrep runs grep once per file: cross-file context separators are not demanded; under the sed fallback every line grep prints gets 'name:' (context lines too)",
+            "only status 2 and the intact, ordered output of the other operands are demanded for missing/undecodable operands; with -q, match plus error may be 0 or 2",
+            "kept out of the domain and counted: -h with -H, -l with -L, -E with -F, -H/-l/-L when reading stdin, -m0, names '.', '..', '-', plain names that claim a gzip/bzip2/lzop/zstd/lz4 suffix; never generated: -r -R -d -z -Z --include/--exclude*",
+            ".lz inputs are the upstream tests/files/good-*.lz (no lzip encoder); gz/bz2 only if gzip/bzip2 are on PATH",
+            "timeouts are inconclusive; stderr is not compared"],
     ),
 }
